@@ -45,7 +45,7 @@ pub(crate) fn displayable(k: &TokenKind) -> bool {
     )
 }
 
-struct NullWriter;
+pub(crate) struct NullWriter;
 impl core::fmt::Write for NullWriter {
     fn write_str(&mut self, _s: &str) -> core::fmt::Result {
         Ok(())
